@@ -40,8 +40,8 @@ AllMT   == MkTypes(TsMT, PmapsT)
 MTypesQ == Seq2Set(AllMQ)
 MTypesT == Seq2Set(AllMT)
 (* simulation vocabulary: everything *)
-RangesS == MkRanges(TsRT, PmapsT, {QABSENT, 0, 500, 1000}) \cup {MR("b", "y", <<P1>>, QBAD)}
-AllMS   == MkTypes(TsRT, PmapsT)
+RangesS == MkRanges(TsRQ, PmapsT, {QABSENT, 0, 500, 1000}) \cup {MR("b", "y", <<P1>>, QBAD)}
+AllMS   == MkTypes(TsMT, PmapsT)
 MTypesS == Seq2Set(AllMS)
 
 CONSTANT AllM      \* the ordered media types of the table instance
@@ -54,7 +54,8 @@ XNext     == XAddRange \/ XAddCand
 EmitTable == (hdr # <<>> /\ cands = <<>>) =>
     PrintT(ToJson([hdr |-> hdr,
                    q   |-> [i \in DOMAIN AllM |-> QualityOutcome(hdr, AllM[i])],
-                   acc |-> [i \in DOMAIN AllM |-> AcceptsOutcome(hdr, AllM[i]).v]]))
+                   acc |-> [i \in DOMAIN AllM |-> AcceptsOutcome(hdr, AllM[i]).v],
+                   nm  |-> [i \in DOMAIN AllM |-> Cardinality(Matching(hdr, AllM[i]))]]))
 (* the order of the table columns, printed once *)
 ASSUME PrintT(ToJson([allm |-> AllM]))
 
